@@ -214,8 +214,81 @@ def h4_widths(kind="Type1", timeout=200, part=None, **kw):
                           "FontMatrix": "symbolic (Type 3)"}, timeout, concretize=conc, shims={"namespace_shims": shims}, part=part, int_lo=-1, int_hi=12)
 
 
+# ------------------------------------------------------------------------------------- H5 the fonts of a resource dictionary
+class _Doc:
+    def __init__(self):
+        self.objs = {}
+
+    def getobj(self, n):
+        from pdfminer.pdfexceptions import PDFObjectNotFound
+        if n not in self.objs:
+            raise PDFObjectNotFound(n)
+        return self.objs[n]
+
+
+def _resources(order, inline, letters="XYZ"):
+    """Font resource dictionary with the fonts in `order`; font i maps code 65 to letters[i] and is written inline or as an indirect reference"""
+    from pdfminer.psparser import LIT
+    from pdfminer.pdftypes import PDFObjRef
+    doc = _Doc()
+    fonts = {}
+    for i in order:
+        spec = {"Type": LIT("Font"), "Subtype": LIT("Type1"), "BaseFont": LIT("Custom%d" % i), "FirstChar": 65, "LastChar": 65, "Widths": [100 * (i + 3)],
+                "Encoding": {"Type": LIT("Encoding"), "Differences": [65, LIT(letters[i])]}}
+        if inline[i]:
+            fonts["F%d" % i] = spec
+        else:
+            doc.objs[10 + i] = spec
+            fonts["F%d" % i] = PDFObjRef(doc, 10 + i)
+    return {"Font": fonts}
+
+
+PERMS3 = [(0, 1, 2), (0, 2, 1), (1, 0, 2), (1, 2, 0), (2, 0, 1), (2, 1, 0)]
+
+
+def _check_resources(order, inline, caching, twice):
+    import pdfminer.pdfinterp as pi
+    from pdfminer.pdfdevice import PDFDevice
+    rm = pi.PDFResourceManager(caching=caching)
+    it = pi.PDFPageInterpreter(rm, PDFDevice(rm))
+    for _ in range(2 if twice else 1):                   # a second page with the same resources (cached fonts)
+        it.init_resources(_resources(order, inline))
+        for i in order:
+            f = it.fontmap.get("F%d" % i)
+            if f is None:
+                return "font F%d is missing from the font map" % i
+            got = (f.to_unichr(65), f.char_width(65))
+            exp = ("XYZ"[i], 100 * (i + 3) * 0.001)
+            if got[0] != exp[0] or abs(got[1] - exp[1]) > 1e-12:
+                return "fonts in the order %r (%s), caching=%s: F%d shows code 65 as %r with width %r, its own dictionary says %r" % (
+                    ["F%d" % k for k in order], ", ".join("F%d %s" % (k, "inline" if inline[k] else "indirect") for k in order), caching, i, got[0], got[1], exp)
+    return None
+
+
+def h5_resources(timeout=100, **kw):
+    """PDFPageInterpreter.init_resources on a Font dictionary of three simple fonts, each inline or indirect, in every order, caching on/off, once or twice: every resource name
+    gets the font of its own dictionary (text of code 65 and its width)"""
+    import pdfminer.pdfinterp as pi
+
+    def fn(ex):
+        order = PERMS3[ex.choice(6, "order")]
+        inline = [ex.choice(2, "inline%d" % i) == 1 for i in range(3)]
+        caching = ex.choice(2, "caching") == 1
+        twice = ex.choice(2, "twice") == 1
+        r = _check_resources(order, inline, caching, twice)
+        ex.require(r is None, r or "", order=list(order), inline=inline, caching=caching, twice=twice)
+
+    def conc(m, info):
+        return info
+    return core.run_symx("H5_resources", fn, [pi.PDFPageInterpreter.init_resources, pi.PDFResourceManager.get_font], {"fonts": "three Type1 fonts with different Differences and Widths",
+                                                                                                                        "each": "inline dictionary or indirect reference", "order": "all 6", "caching": "on/off", "pages": "1 or 2"},
+                         timeout, concretize=conc)
+
+
 def replay(harness, inp):
     import pdfminer.encodingdb as ed
+    if harness == "H5_resources":
+        return _check_resources(tuple(inp["order"]), inp["inline"], inp["caching"], inp["twice"])
     if harness == "H2_names":
         got, exp = _n2u(inp["name"]), agl(inp["name"])
         return None if got == exp else "name2unicode(%r) = %r, the Adobe Glyph List algorithm gives %r" % (inp["name"], got, exp)
@@ -285,7 +358,7 @@ def replay(harness, inp):
 
 
 def jobs(tier):
-    J = [Job("H3_precedence", "h3_precedence", {}, 100)]
+    J = [Job("H3_precedence", "h3_precedence", {}, 100), Job("H5_resources", "h5_resources", {}, 100)]
     for kind in ("uni4", "uni8", "u", "comp"):
         for k in range(2):
             J.append(Job("H2_names:%s:%d" % (kind, k), "h2_names", {"kind": kind, "part": [k, 2, 6]}, 300, "H2_names"))
